@@ -16,6 +16,8 @@ CONSTANTS Leaves, MaxDepth
 AddOps == {"+", "-"}
 MulOps == {"*", "/", "%"}
 Prec(o) == IF o \in AddOps THEN 1 ELSE 2
+\* (TLC re-evaluates a LET definition at every use inside recursive operators; binding through a singleton set evaluates once)
+Once(x) == CHOOSE y \in {x} : TRUE
 Leaf(v) == [o |-> "n", v |-> v]
 Bin(op, a, b) == [o |-> op, a |-> a, b |-> b]
 
@@ -27,7 +29,7 @@ RECURSIVE Render(_, _)
 Render(t, redundant) ==
   IF t.o = "n" THEN <<<<"n", t.v>>>>
   ELSE LET Side(ch, right) ==
-             LET r == Render(ch, redundant) IN
+             LET r == Once(Render(ch, redundant)) IN
              IF ch.o # "n" /\ (Prec(ch.o) < Prec(t.o) \/ (right /\ Prec(ch.o) = Prec(t.o)) \/ redundant)
              THEN <<LP>> \o r \o <<RP>> ELSE r
        IN Side(t.a, FALSE) \o <<Op(t.o)>> \o Side(t.b, TRUE)
@@ -35,19 +37,19 @@ Render(t, redundant) ==
 \* ---------------------------------------------------------------- parsing: each function returns <<tree, rest>>
 RECURSIVE PAdd(_), PMul(_), PPrim(_), PAddTail(_, _), PMulTail(_, _)
 PPrim(ts) == IF ts = << >> THEN <<[o |-> "err"], << >>>>
-             ELSE IF Head(ts) = LP THEN LET r == PAdd(Tail(ts)) IN
+             ELSE IF Head(ts) = LP THEN LET r == Once(PAdd(Tail(ts))) IN
                                         IF r[2] # << >> /\ Head(r[2]) = RP THEN <<r[1], Tail(r[2])>> ELSE <<[o |-> "err"], << >>>>
              ELSE IF Head(ts)[1] # "n" THEN <<[o |-> "err"], << >>>>
              ELSE <<Leaf(Head(ts)[2]), Tail(ts)>>
 PMulTail(acc, ts) == IF ts # << >> /\ Head(ts)[1] = "o" /\ Head(ts)[2] \in MulOps
-                     THEN LET r == PPrim(Tail(ts)) IN PMulTail(Bin(Head(ts)[2], acc, r[1]), r[2])     \* left to right
+                     THEN LET r == Once(PPrim(Tail(ts))) IN PMulTail(Bin(Head(ts)[2], acc, r[1]), r[2])     \* left to right
                      ELSE <<acc, ts>>
-PMul(ts) == LET h == PPrim(ts) IN PMulTail(h[1], h[2])
+PMul(ts) == LET h == Once(PPrim(ts)) IN PMulTail(h[1], h[2])
 PAddTail(acc, ts) == IF ts # << >> /\ Head(ts)[1] = "o" /\ Head(ts)[2] \in AddOps
-                     THEN LET r == PMul(Tail(ts)) IN PAddTail(Bin(Head(ts)[2], acc, r[1]), r[2])
+                     THEN LET r == Once(PMul(Tail(ts))) IN PAddTail(Bin(Head(ts)[2], acc, r[1]), r[2])
                      ELSE <<acc, ts>>
-PAdd(ts) == LET h == PMul(ts) IN PAddTail(h[1], h[2])
-Parse(ts) == LET r == PAdd(ts) IN IF r[2] = << >> THEN r[1] ELSE [o |-> "err"]
+PAdd(ts) == LET h == Once(PMul(ts)) IN PAddTail(h[1], h[2])
+Parse(ts) == LET r == Once(PAdd(ts)) IN IF r[2] = << >> THEN r[1] ELSE [o |-> "err"]
 
 \* ---------------------------------------------------------------- universe
 L == {Leaf(v) : v \in Leaves}
